@@ -25,11 +25,12 @@ func init() {
 }
 
 func runC02(c *core.Ctx) {
-	ruleNoArgMutation(c)
+	ruleNoArgMutation(c, "C02-R1")
 	ruleInStreamGuards(c, "C02-R2")
 	ruleXRefCompleteness(c)
 	ruleKeyFieldAgreement(c)
 	ruleOptionTables(c)
+	ruleStringEncryptionUnconditional(c, "C02-R6")
 }
 
 func ruleXRefCompleteness(c *core.Ctx) {
